@@ -3,12 +3,12 @@
 Require Extraction.
 Require Import ExtrOcamlBasic.
 From Coq Require Import Strings.Byte.
-From Sftp Require Import Base.GoSem Mode.FileMode Wire.Prim Wire.Packets Wire.ClientParse Srv.ReadOnly Srv.OpenFlags Srv.Negotiate Xfer.Transfer Xfer.FileOps Path.Clean Err.Status Srv.ReqServer Srv.Listing Lin.Linearize Srv.ServeLoop Srv.Handles Sched.PktMgr Sched.PktTrace Conn.ClientConn Conn.ConnTrace Sched.Alloc Sched.AllocTrace.
+From Sftp Require Import Base.GoSem Mode.FileMode Wire.Prim Wire.Packets Wire.ClientParse Srv.ReadOnly Srv.OpenFlags Srv.Negotiate Xfer.Transfer Xfer.FileOps Path.Clean Err.Status Srv.ReqServer Srv.Listing Lin.Linearize Srv.ServeLoop Srv.Handles Sched.PktMgr Sched.PktTrace Conn.WireMutex Conn.IdWrap Conn.ClientConn Conn.ConnTrace Sched.Alloc Sched.AllocTrace.
 Extraction Language OCaml.
 Extraction "model.ml"
   Byte.of_bits Byte.to_bits
   toFileMode fromFileMode toChmodPerm isRegular mode_string parse_mode_string wire_normal valid_wire_type
-  os_mode fileStat_flags setstat_ops run_until_fail
+  os_mode fileStat_flags fileStat_owner ls_owner setstat_ops run_until_fail
   encA encB decA decB_request decB_response recv_frame recv_frame_B attrs_dec attrs_alloc_cells decB_name_alloc_cells guardB
   rawify wf_packet ptype
   client_safe parse_status_only parse_handle parse_attrs parse_name1 parse_readdir parse_statvfs parse_data read_chunk path_base
@@ -18,4 +18,4 @@ Extraction "model.ml"
   clean clean_with_base clean_path to_local_path status_code perm_fixed normalise dispatch realpath_default
   client_list scripted filelist_step
   lin_check serve serve_fixed hstep h0
-  toPflags served_osflags frun accept_raw quiescent emitted arrived caccept_trace areplay_trace all_used available.
+  toPflags served_osflags frun accept_raw quiescent emitted arrived caccept_trace areplay_trace all_used available scan ids_from.
